@@ -35,6 +35,66 @@ type Heaper struct {
 	isDual func(types.Type) bool
 }
 
+// ---- interior pointers ----
+// A pointer to a non-struct field of a heap struct that has to become a value (it is stored, merged
+// with another pointer, put into a slice) is fptr(obj, K): K identifies the (struct type, leaf offset)
+// site. The sites a function needs are discovered by a first generation pass (reify registers them);
+// generation is repeated until no new site appears, so that every range assumption already allows
+// the interior pointers created later.
+type fptrSite struct {
+	StructT types.Type
+	Off     int
+	T       types.Type
+}
+
+var fptrSites []fptrSite
+var fptrNew bool
+
+func fptrSitesOf(t types.Type) []int {
+	var out []int
+	for i, s := range fptrSites {
+		if types.Identical(s.T, t) {
+			out = append(out, i+1)
+		}
+	}
+	return out
+}
+
+func fptrSiteK(structT types.Type, off int, t types.Type) int {
+	for i, s := range fptrSites {
+		if types.Identical(s.StructT, structT) && s.Off == off && types.Identical(s.T, t) {
+			return i + 1
+		}
+	}
+	fptrSites = append(fptrSites, fptrSite{structT, off, t})
+	fptrNew = true
+	return len(fptrSites)
+}
+
+// boxAlternatives: the struct-field lvalues a boxed pointer r of element type t may designate.
+func (h *Heaper) boxAlternatives(lv *LVal) (conds []*Term, lvs []*LVal) {
+	if lv.Root != RBox {
+		return
+	}
+	ks := fptrSitesOf(lv.RootT)
+	if len(ks) == 0 {
+		return
+	}
+	h.vc.theories["fptr"] = true
+	isF := isElemTerm(lv.Ref)
+	obj := app(SInt, "fObj", lv.Ref)
+	for _, k := range ks {
+		s := fptrSites[k-1]
+		root := RStruct
+		if dualTypes[typeName(s.StructT)] {
+			root = RDual
+		}
+		conds = append(conds, mkAnd(isF, mkEq(app(SInt, "fK", lv.Ref), mkInt64(int64(k)))))
+		lvs = append(lvs, &LVal{Root: root, Ref: obj, RootT: s.StructT, Off: s.Off, T: s.T})
+	}
+	return
+}
+
 func isElemTerm(p *Term) *Term { return app(SBool, "<", p, mkInt64(-1000000000)) }
 
 func (h *Heaper) heapGet(st *State, f Family) *Term {
@@ -55,6 +115,9 @@ func (h *Heaper) heapGet(st *State, f Family) *Term {
 // stored reference points to an object that exists too (refs are never forged, allocation is monotone).
 func (h *Heaper) closedness(arr *Term, f Family, ctr string) {
 	if f.Leaf.T == nil {
+		return
+	}
+	if f.KeySort != "" && kindOf(f.Leaf.T) == KSlice {
 		return
 	}
 	if kindOf(f.Leaf.T) == KSlice && (strings.HasSuffix(f.Leaf.Path, ".len") || strings.HasSuffix(f.Leaf.Path, ".off")) {
@@ -83,6 +146,12 @@ func (h *Heaper) closedness(arr *Term, f Family, ctr string) {
 		h.vc.assertGlobalOrLine(fmt.Sprintf("(forall ((r!c Int) (i!c (_ BitVec 64))) (! (=> (<= r!c %s) %s) :pattern (%s)))", ctr, refRange(f.Leaf.T, v, ctr), v), ctr == "ctr0")
 		return
 	}
+	if f.KeySort != "" {
+		// values of a map
+		v := fmt.Sprintf("(select (select %s r!c) k!c)", arr.S)
+		h.vc.assertGlobalOrLine(fmt.Sprintf("(forall ((r!c Int) (k!c %s)) (! (=> (<= r!c %s) %s) :pattern (%s)))", f.KeySort, ctr, refRange(f.Leaf.T, v, ctr), v), ctr == "ctr0")
+		return
+	}
 	v := fmt.Sprintf("(select %s r!c)", arr.S)
 	h.vc.assertGlobalOrLine(fmt.Sprintf("(forall ((r!c Int)) (! (=> (<= r!c %s) %s) :pattern (%s)))", ctr, refRange(f.Leaf.T, v, ctr), v), ctr == "ctr0")
 }
@@ -91,6 +160,19 @@ func (h *Heaper) closedness(arr *Term, f Family, ctr string) {
 // for pointers to struct types whose slice elements are addressed - an element reference.
 func refRange(t types.Type, v, ctr string) string {
 	base := fmt.Sprintf("(and (<= 0 %s) (<= %s %s))", v, v, ctr)
+	if p, ok := t.Underlying().(*types.Pointer); ok {
+		if ks := fptrSitesOf(p.Elem()); len(ks) > 0 {
+			var alts []string
+			for _, k := range ks {
+				alts = append(alts, fmt.Sprintf("(= (fK %s) %d)", v, k))
+			}
+			alt := alts[0]
+			if len(alts) > 1 {
+				alt = "(or " + strings.Join(alts, " ") + ")"
+			}
+			return fmt.Sprintf("(or %s (and (< %s (- 1000000000)) (= %s (fptr (fObj %s) (fK %s))) (not (= (fObj %s) 0)) (<= (fObj %s) %s) %s))", base, v, v, v, v, v, v, ctr, alt)
+		}
+	}
 	if p, ok := t.Underlying().(*types.Pointer); ok && kindOf(p.Elem()) == KStruct && dualTypes[typeName(p.Elem())] {
 		return fmt.Sprintf("(or %s (< %s (- 1000000000)))", base, v)
 	}
@@ -131,6 +213,13 @@ func (h *Heaper) loadLeaves(st *State, lv *LVal, off, n int) []*Term {
 		for i := 0; i < n; i++ {
 			out[i] = mkSelect(h.heapGet(st, fams[off+i]), lv.Ref)
 		}
+		conds, alts := h.boxAlternatives(lv)
+		for j := range alts {
+			av := h.loadLeaves(st, alts[j], alts[j].Off+off, n)
+			for i := 0; i < n; i++ {
+				out[i] = mkIte(conds[j], av[i], out[i])
+			}
+		}
 		return out
 	case RElem:
 		fams := familiesOf(RElem, lv.RootT)
@@ -167,8 +256,20 @@ func (h *Heaper) storeLeaves(st *State, lv *LVal, off int, vals []*Term) {
 		st.cells[lv.Cell] = nv
 	case RStruct, RBox:
 		fams := familiesOf(lv.Root, lv.RootT)
+		conds, alts := h.boxAlternatives(lv)
+		for j := range alts {
+			cur := h.loadLeaves(st, alts[j], alts[j].Off+off, len(vals))
+			nv := make([]*Term, len(vals))
+			for i := range vals {
+				nv[i] = mkIte(conds[j], vals[i], cur[i])
+			}
+			h.storeLeaves(st, alts[j], alts[j].Off+off, nv)
+		}
 		for i, x := range vals {
 			f := fams[off+i]
+			if len(alts) > 0 {
+				x = mkIte(isElemTerm(lv.Ref), mkSelect(h.heapGet(st, f), lv.Ref), x)
+			}
 			h.heapSet(st, f, mkStore(h.heapGet(st, f), lv.Ref, x))
 		}
 	case RElem:
